@@ -84,7 +84,9 @@ def _normalize_parsed_items(
             if isinstance(measure.value, int):
                 scale = field_scaling.get(measure.obis, None)
                 if scale:
-                    dictionary[element_name] = measure.value * (10**scale)
+                    dictionary[element_name] = round(
+                        measure.value * (10**scale), abs(scale)
+                    )
                 else:
                     dictionary[element_name] = measure.value
             else:
